@@ -591,13 +591,15 @@ pub enum Profile {
     General,
     Weights, // C03: repeated edges with smaller / larger weights, uniformly weighted or unweighted
     Degrees, // C09: directed self-loops, parallel edges
+    Big,     // 10..16 nodes, two or three hubs of high degree, long histories: size-dependent code paths
 }
 
 pub fn gen_case(rng: &mut Rng, profile: Profile, max_ops: usize) -> Case {
     let specs = Specs::from_index(rng.below(96) as u32);
     // names drawn so that sort order differs from insertion order
-    let k = rng.range(2, 5) as usize;
-    let mut pool: Vec<u32> = (1..=9).collect();
+    let big = matches!(profile, Profile::Big);
+    let k = if big { rng.range(10, 16) as usize } else { rng.range(2, 5) as usize };
+    let mut pool: Vec<u32> = if big { (1..=30).collect() } else { (1..=9).collect() };
     rng.shuffle(&mut pool);
     let names: Vec<u32> = pool[..k].to_vec();
     let absent = pool[k];
@@ -613,14 +615,23 @@ pub fn gen_case(rng: &mut Rng, profile: Profile, max_ops: usize) -> Case {
             None => if rng.chance(60) { Some(rng.range(-2, 6)) } else { None },
         }
     };
-    let nops = rng.range(1, max_ops as i64) as usize;
+    let nops = if big { rng.range(20, 60) as usize } else { rng.range(1, max_ops as i64) as usize };
+    // hubs (Big profile): most edges touch one of them, so that their adjacency lists grow long
+    let nhubs = if big { rng.range(2, 3) as usize } else { 0 };
+    let hub_pos: Vec<usize> = { let mut idx: Vec<usize> = (0..k).collect(); rng.shuffle(&mut idx); idx[..nhubs].to_vec() };
+    let hubs: Vec<u32> = hub_pos.iter().map(|i| names[*i]).collect();
     let mut ops = vec![];
     let mut used_pairs: Vec<(u32, u32)> = vec![];
     let all_names: Vec<u32> = { let mut v = names.clone(); if rng.chance(30) { v.push(absent) }; v };
     let gen_edge = |rng: &mut Rng, used: &mut Vec<(u32, u32)>, tag: &mut u32| -> E {
         let dup_pct = match profile { Profile::Weights => 55, Profile::Degrees => 40, _ => 35 };
         let loop_pct = match profile { Profile::Degrees => 30, _ => 15 };
-        let (u, v) = if !used.is_empty() && rng.chance(dup_pct) {
+        let (u, v) = if big && rng.chance(55) {
+            // a hub with anybody (another hub now and then), either orientation
+            let h = *rng.pick(&hubs);
+            let o = if rng.chance(25) { *rng.pick(&hubs) } else { *rng.pick(&all_names) };
+            if rng.chance(50) { (h, o) } else { (o, h) }
+        } else if !used.is_empty() && rng.chance(dup_pct) {
             let p = *rng.pick(used);
             if rng.chance(40) { (p.1, p.0) } else { p }
         } else if rng.chance(loop_pct) {
@@ -638,10 +649,10 @@ pub fn gen_case(rng: &mut Rng, profile: Profile, max_ops: usize) -> Case {
         N { name: *rng.pick(&all_names), attr: if rng.chance(60) { Some(*tag) } else { None } }
     };
     // start: often add most nodes first (so that missing=error histories are not all errors)
-    if rng.chance(60) {
+    if rng.chance(60) || big {
         let mut first = names.clone();
         rng.shuffle(&mut first);
-        let cut = rng.range(1, first.len() as i64) as usize;
+        let cut = if big && rng.chance(70) { first.len() } else { rng.range(1, first.len() as i64) as usize };
         ops.push(Op::AddNodes(first[..cut].iter().map(|x| { tag += 1; N { name: *x, attr: if rng.chance(50) { Some(tag) } else { None } } }).collect()));
     }
     while ops.len() < nops {
@@ -662,7 +673,7 @@ pub fn gen_case(rng: &mut Rng, profile: Profile, max_ops: usize) -> Case {
         } else if r < 92 && weighted_uniform != Some(true) {
             let k = rng.range(0, 4);
             Op::AddEdgeTuples((0..k).map(|_| { let e = gen_edge(rng, &mut used_pairs, &mut tag); (e.u, e.v) }).collect())
-        } else if r < 96 {
+        } else if r < 96 && !(big && rng.chance(85)) {
             let kn = rng.range(0, 4);
             let ke = rng.range(0, 5);
             used_pairs.clear();
@@ -675,6 +686,11 @@ pub fn gen_case(rng: &mut Rng, profile: Profile, max_ops: usize) -> Case {
         ops.push(op);
     }
     let mut universe = names.clone();
+    if big {
+        // the hubs and one other node: the per-pair / per-subset queries stay cheap, the snapshot covers the rest
+        universe = hubs.clone();
+        if let Some(x) = names.iter().find(|x| !hubs.contains(x)) { universe.push(*x); }
+    }
     universe.truncate(3);
     universe.push(absent);
     Case { specs, universe, w: if rng.chance(80) { Some(rng.range(0, 9)) } else { None }, ops }
